@@ -61,7 +61,7 @@ var c18Templates = []c18Template{
 	logT("tab_in_literal", " |= \"k=1\ttok\""),
 	logT("space_in_literal", ` |= "k=1 tok"`),
 	// a template function with a regex that differs from plan to plan (see Gen)
-	logT("regex_replace", ` | line_format "{{ regexReplaceAll \"c[0-9]+r@\" __line__ \"N\" }}"`),
+	logT("regex_replace", ` | line_format "{{ regexReplaceAll \"c[0-9]+(q@)?\" __line__ \"N\" }}"`),
 	metT("count", "count_over_time(", ")"),
 	metT("bytes", "bytes_over_time(", ")"),
 	metT("count_filter", "count_over_time(", ")"),
